@@ -87,7 +87,8 @@ def injectHtmlAttributes(tag: str, consume: bool=True) -> str:
             attrs = f'class="{classes}"'
     if id:
         id = id.lower()
-        has_id = re.compile(r'^<(?:[^<"]|"[^"]*")*?\sid=".*?"', re.IGNORECASE).search(result)
+        # An id attribute of the first tag (not id="..." look-alike text after it).
+        has_id = re.compile(r'^<(?:[^>"]|"[^"]*")*?\sid=".*?"', re.IGNORECASE).search(result)
         if has_id or id in ids:
             options.errorCallback(f"duplicate 'id' attribute: {id}")
         else:
